@@ -355,7 +355,7 @@ func observe(w b6.World, ids []b6.FeatureID) wk.Dump {
 }
 
 // classify one differing section: got vs want are space separated sorted ID lists.
-func classify(kind, section, got, want string, former []wk.Dump, droppedBase bool) string {
+func classify(kind, section, got, want string, former []wk.Dump, droppedBase, cycle bool) string {
 	replaced := map[string]bool{} // referrers (under this query) in an earlier state of the history
 	for _, f := range former {
 		for _, x := range strings.Fields(f[section]) {
@@ -365,6 +365,9 @@ func classify(kind, section, got, want string, former []wk.Dump, droppedBase boo
 	sec := wk.SectionClass(section)
 	if strings.HasPrefix(sec, "refs-") {
 		sec = "refs-typed"
+	}
+	if kind == "compact" {
+		sec = "any-query" // its FindReferences is assembled from the other three queries
 	}
 	if strings.Contains(got, "PANIC(") {
 		i := strings.Index(got, "PANIC(")
@@ -401,6 +404,9 @@ func classify(kind, section, got, want string, former []wk.Dump, droppedBase boo
 		// one input class whatever the query: the overlay replaced a feature of the
 		// base by a version that dropped a reference, and the answer still follows
 		// the base's version of it
+		if cycle {
+			return kind + ":extra-referrer-after-replacing-base-feature-by-version-that-dropped-a-reference:on-a-reference-cycle"
+		}
 		return kind + ":extra-referrer-after-replacing-base-feature-by-version-that-dropped-a-reference"
 	case stale:
 		return kind + ":" + sec + ":reports-former-referrer-that-no-longer-refers"
@@ -414,7 +420,7 @@ func classify(kind, section, got, want string, former []wk.Dump, droppedBase boo
 	return kind + ":" + sec + ":differs"
 }
 
-func compare(r *kit.Result, kind string, got, want wk.Dump, former []wk.Dump, droppedBase bool, what func() string) bool {
+func compare(r *kit.Result, kind string, got, want wk.Dump, former []wk.Dump, droppedBase, cycle bool, what func() string) bool {
 	var secs []string
 	for k := range want {
 		secs = append(secs, k)
@@ -428,7 +434,7 @@ func compare(r *kit.Result, kind string, got, want wk.Dump, former []wk.Dump, dr
 			g = "MISSING-SECTION"
 		}
 		if g != want[k] {
-			c := classify(kind, k, g, want[k], former, droppedBase)
+			c := classify(kind, k, g, want[k], former, droppedBase, cycle)
 			if _, seen := byClass[c]; !seen {
 				order = append(order, c)
 			}
@@ -470,7 +476,9 @@ func maxReferrers(spec wk.Spec, ids []b6.FeatureID) int {
 
 type op struct{ slot, v int }
 
-func (o op) String(m []slot) string { return "AddFeature(" + m[o.slot].name + "=" + m[o.slot].vs[o.v].name + ")" }
+func (o op) String(m []slot) string {
+	return "AddFeature(" + m[o.slot].name + "=" + m[o.slot].vs[o.v].name + ")"
+}
 
 func ops(m []slot, rad []int, slots []int) []op {
 	var out []op
@@ -611,7 +619,7 @@ func runHistories(r *kit.Result, c *histCfg, start state) {
 		got := observe(w, ids)
 		r.Evals++
 		r.Transitions += int64(len(n.hist))
-		good := compare(r, c.kind, got, want, former, droppedBase, describe)
+		good := compare(r, c.kind, got, want, former, droppedBase, n.anyCycle, describe)
 		mr := 0
 		for _, v := range want {
 			if v != "" {
@@ -636,12 +644,13 @@ func runHistories(r *kit.Result, c *histCfg, start state) {
 		}
 		r.AddOutcome(fmt.Sprintf("%s:len%d:%s:%s", c.kind, len(n.hist), tag, res))
 	}
-	var rec func(n node)
-	rec = func(n node) {
-		if n.anyCycle == c.cyclic {
-			check(n)
-		}
-		if len(n.hist) == c.depth {
+	// shortest histories first, so the first counterexample of a class is minimal
+	var rec func(n node, length int)
+	rec = func(n node, length int) {
+		if len(n.hist) == length {
+			if n.anyCycle == c.cyclic {
+				check(n)
+			}
 			return
 		}
 		for _, o := range c.ops {
@@ -654,11 +663,13 @@ func runHistories(r *kit.Result, c *histCfg, start state) {
 			if cy && !c.cyclic {
 				continue
 			}
-			rec(node{st: nx, hist: append(append([]op{}, n.hist...), o), anyCycle: cy})
+			rec(node{st: nx, hist: append(append([]op{}, n.hist...), o), anyCycle: cy}, length)
 		}
 	}
 	r.States++
-	rec(node{st: start, anyCycle: isCyclic(start)})
+	for length := 0; length <= c.depth; length++ {
+		rec(node{st: start, anyCycle: isCyclic(start)}, length)
+	}
 }
 
 // ---- static worlds ------------------------------------------------------------------
@@ -700,7 +711,7 @@ func runStatic(r *kit.Result, m []slot, sch wk.IDScheme, kind string, st state) 
 			}
 		}
 	}
-	good := compare(r, kind, got, want, nil, false, describe)
+	good := compare(r, kind, got, want, nil, false, false, describe)
 	res := "ok"
 	if !good {
 		res = "diff"
@@ -836,49 +847,51 @@ func build(tier string) (kit.Space, string) {
 	cases := make([]caseDef, 0, 1<<14)
 	var bound []string
 
-	// 1. static worlds over every valid state of the full menu (acyclic), and the
-	//    cyclic states on the restricted physical part.
-	nsch := 1
+	// 1. static worlds: basic over every valid acyclic state (full menu under the
+	//    first scheme, small menu under the others in the quick tier) and over the
+	//    cyclic states on the restricted physical part; compact over the
+	//    collection-free states (quick: small menu + every relation variant over
+	//    {nothing, closed W0, closed W0 + A0}).
+	nsch := 2
 	if thorough {
 		nsch = 3
 	}
+	inSmall := func(st state) bool {
+		for i := range st {
+			if int(st[i]) >= small[i] {
+				return false
+			}
+		}
+		return true
+	}
+	relationExtras := func(st state) bool {
+		return st[sP0] == 0 && st[sW1] == 0 && st[sW0] <= 1 && st[sA0] <= 1
+	}
+	fullAc, fullCy := states(m, full, wk.Schemes[0])
 	for si := 0; si < nsch; si++ {
 		sch := wk.Schemes[si]
-		rad := small
-		if thorough || si == 0 {
-			rad = full
+		nb, nc, ncy, ncc := 0, 0, 0, 0
+		for _, st := range fullAc {
+			if thorough || si == 0 || inSmall(st) {
+				cases = append(cases, caseDef{what: cStaticBasic, sch: uint8(si), st: st})
+				nb++
+			}
 		}
-		ac, cy := states(m, rad, sch)
-		nb, nc := 0, 0
-		for _, st := range ac {
-			cases = append(cases, caseDef{what: cStaticBasic, sch: uint8(si), st: st})
-			nb++
-		}
-		cm := rad
-		if !thorough {
-			cm = small
-		}
-		acC, cyC := states(m, cm, sch)
-		for _, st := range acC {
-			if !hasCollection(m, st) {
+		for _, st := range fullAc {
+			if !hasCollection(m, st) && (thorough || inSmall(st) || relationExtras(st)) {
 				cases = append(cases, caseDef{what: cStaticCompact, sch: uint8(si), st: st})
 				nc++
 			}
 		}
-		ncy := 0
-		cyB := cy
-		if !thorough || si > 0 {
-			cyB = cyC // quick: cyclic states of the small menu only (each costs a worker while findReferences recurses forever)
-		}
-		for _, st := range cyB {
-			if cyclicPhys(st) && (st[sW0] == 0 || (thorough && si == 0)) {
+		for _, st := range fullCy {
+			// each cyclic state costs a worker process while findReferences recurses forever
+			if cyclicPhys(st) && ((thorough && si == 0) || (st[sW0] == 0 && (inSmall(st) || thorough))) && (thorough || si == 0) {
 				cases = append(cases, caseDef{what: cStaticBasic, sch: uint8(si), st: st})
 				ncy++
 			}
 		}
-		ncc := 0
-		for _, st := range cyC {
-			if cyclicPhys(st) && !hasCollection(m, st) {
+		for _, st := range fullCy {
+			if cyclicPhys(st) && !hasCollection(m, st) && (thorough || inSmall(st) || relationExtras(st)) {
 				cases = append(cases, caseDef{what: cStaticCompact, sch: uint8(si), st: st})
 				ncc++
 			}
@@ -997,7 +1010,7 @@ func main() {
 		},
 		CaseTimeout:      60e9, // cases take well under a second of CPU; the shared machine is heavily loaded
 		WorkerEnv:        []string{"GOMAXPROCS=2", "GOGC=400"},
-		QuickDeadline:    240e9,
+		QuickDeadline:    420e9,
 		ThoroughDeadline: 25 * 60e9,
 		Chunk:            4,
 		Build:            build,
